@@ -68,7 +68,10 @@ class ItemID():
     def can_depend_on(self, other: "ItemID") -> "ItemID":
         """Return whether the current id can depend on another id."""
         l = len(other.id)
-        if l > len(self.id):
+        if l == 0 or l > len(self.id):
+            return False
+        if any(i < 0 for i in other.id):
+            # Negative numbers are not line numbers (they would index from the end)
             return False
         if other.id[:l-1] != self.id[:l-1]:
             return False
@@ -200,6 +203,8 @@ class Proof:
 
     def find_item(self, id: ItemID) -> ProofItem:
         """Find item at the given id."""
+        if any(i < 0 for i in id.id):
+            raise ProofStateException
         try:
             item = self.items[id.id[0]]
             for i in id.id[1:]:
